@@ -4,7 +4,7 @@
     known-finding class of C10 is left, so there are no [known_*] lists any more;
     [reads_back] / [validator_reads_back] are the CURRENT readers ([main_read_pos],
     [val_read_pos]). *)
-From Rocfl Require Import Base.Bytes Model.VersionNum Model.Json Model.KnownC10.
+From Rocfl Require Import Base.Bytes Model.VersionNum Model.Json.
 Open Scope N_scope.
 
 Definition opt_bytes_eqb (a c : option bytes) : bool :=
@@ -113,4 +113,4 @@ Definition check_foreign (p : pos) (s tok : bytes) (main_ok val_ok : bool) : lis
     Bool.eqb main_ok (opt_bytes_eqb (main_read_pos p tok) (Some s));
     Bool.eqb val_ok (opt_bytes_eqb (val_read_pos p tok) (Some s)) ].
 Definition foreign_class (p : pos) (tok : bytes) : list bool :=
-  [ c10_foreign_escaped_version_name p tok ].
+  [ escaped_version_name_token p tok ].
